@@ -1022,6 +1022,10 @@ fn discharge_constants(cx: &mut Ctx) {
         let t = sm::tsx(&p.file);
         if t.contains("letexpected=(expected.len()==1).then(||expected[0].clone());") {
             cx.ok(rule, "D.lenmatch: expected[0] under (expected.len() == 1).then(..)");
+        } else if !t.contains("expected[") {
+            // no indexing of the expected-token list at all (a slice pattern, `first()`, ...): nothing to discharge;
+            // a new index site elsewhere is an unreviewed site of the MIR inventory (C03.N1)
+            cx.ok(rule, "D.lenmatch: the expected-token list is not indexed");
         } else {
             cx.fail(rule, &format!("{}/expected-index", rule), &p.rel, "expected[0] is not guarded by expected.len() == 1");
         }
